@@ -23,7 +23,7 @@ def discharge(res, name, desc, bounds, cons, expect_unsat=True, timeout=120, kno
     o.solver_s = round(q.time + getattr(q, "cross_time", 0.0), 3)
     o.queries = 1
     o.sample = sample
-    detail = f"z3={q.result if q.result != 'disagree' else 'disagrees'} cvc5={q.cross} ({q.time:.2f}s)"
+    detail = f"z3={q.result if q.result != 'disagree' else 'disagrees'} {getattr(q, 'cross_solver', 'cvc5')}={q.cross} ({q.time:.2f}s)"
     if r in ("unknown", "disagree"):
         o.status, o.detail = "error", "solver could not decide or solvers disagree: " + detail
     elif expect_unsat:
@@ -43,6 +43,37 @@ def discharge(res, name, desc, bounds, cons, expect_unsat=True, timeout=120, kno
     res.obligations.append(o)
     common.log(f"  [e3] {name}: {o.status} ({o.solver_s}s) {o.detail[:120]}")
     return o, q
+
+
+def discharge_many(res, specs, timeout=120):
+    """specs: list of dict(name, desc, bounds, cons, expect_unsat, on_model, sample). All queries run concurrently."""
+    qs = [conc.Query(sp["name"], sp["cons"], "unsat" if sp.get("expect_unsat", True) else "sat", sp["desc"]) for sp in specs]
+    conc.solve_many(qs, timeout)
+    out = []
+    for sp, q in zip(specs, qs):
+        o = common.Obligation(sp["name"], "mirsmt", sp["desc"], sp.get("bounds", ""))
+        o.solver_s = round(q.time + q.cross_time, 3)
+        o.queries = 1
+        o.sample = sp.get("sample")
+        detail = f"z3-4.8.12={q.result if q.result != 'disagree' else 'disagrees'} {q.cross_solver}={q.cross} ({q.time:.2f}s)"
+        if q.result in ("unknown", "disagree"):
+            o.status, o.detail = "error", "solver could not decide or solvers disagree: " + detail
+        elif sp.get("expect_unsat", True):
+            if q.result == "unsat":
+                o.status, o.detail = "pass", detail
+            else:
+                o.status, o.detail = "violation", "counterexample found: " + detail
+                if sp.get("on_model"):
+                    sp["on_model"](o, q.model)
+        else:
+            if q.result == "sat":
+                o.status, o.detail = "pass", "witness exists: " + detail
+            else:
+                o.status, o.detail = "error", "vacuity witness unsatisfiable (scenario over-constrained): " + detail
+        res.obligations.append(o)
+        common.log(f"  [e3] {sp['name']}: {o.status} ({o.solver_s}s) {o.detail[:140]}")
+        out.append((o, q))
+    return out
 
 
 def schedule_from_model(eng, sc, model):
